@@ -20,6 +20,7 @@ import (
 	"github.com/oasisprotocol/oasis-core/go/common/cbor"
 	"github.com/oasisprotocol/oasis-core/go/common/crypto/hash"
 	"github.com/oasisprotocol/oasis-core/go/common/crypto/signature"
+	commonNode "github.com/oasisprotocol/oasis-core/go/common/node"
 	"github.com/oasisprotocol/oasis-core/go/common/verifhook"
 	consensusAPI "github.com/oasisprotocol/oasis-core/go/consensus/api"
 	"github.com/oasisprotocol/oasis-core/go/consensus/api/transaction"
@@ -141,9 +142,11 @@ type Sim struct {
 	Pool         []*PendingTx
 	History      []*BuiltTx // every transaction ever built (for replays)
 	pendingNonce map[signature.PublicKey]uint64
-	Oracles      []Oracle
-	base         string
-	txSeq        int
+	// elect holds the election inputs captured by the pre-election probe (C10 runs).
+	elect   *c14Oracle
+	Oracles []Oracle
+	base    string
+	txSeq   int
 	// Aborted is set when the run cannot continue for a reason that is not a violation of the
 	// property being checked (e.g. a panic while checking another property).
 	Aborted string
@@ -206,6 +209,8 @@ func (v *simView) Account(addr staking.Address) *staking.Account {
 }
 
 func (v *simView) Tree() mkvs.ImmutableKeyValueTree { return v.tree }
+
+func (v *simView) Height() int64 { return v.s.Height }
 
 func (v *simView) Epoch() beacon.EpochTime {
 	e, _, err := beaconState.NewImmutableState(v.tree).GetEpoch(v.s.Ctx)
@@ -424,11 +429,77 @@ func electionPrecondition(msg string) bool {
 	return strings.Contains(msg, "failed to elect any validators") || strings.Contains(msg, "insufficient validators")
 }
 
+// electionFailure handles a fatal validator election. The documented precondition of C10 is
+// that enough stake-eligible validators remain; whether it held is evaluated from the state the
+// failed election read (captured by a probe application in C10 runs), independently of the
+// scheduler: registered validator nodes that are neither frozen nor expired and whose entity's
+// escrow covers its stake claims, counted within the per-entity limit. A failed election with
+// enough of them is a halt caused by something else and is a verdict.
+func (s *Sim) electionFailure() *core.Violation {
+	s.St.Inc("probe.precondition_validator_election_failed")
+	s.Aborted = "validator-election-precondition"
+	if s.Prop != "C10" || s.elect == nil {
+		return nil
+	}
+	h := s.Height + 1
+	var in *c14Input
+	for _, r := range s.Reps {
+		if c := s.elect.slot(r.Idx, h); c != nil && c.Err == "" && c.In.Sched != nil {
+			in = &c.In
+			break
+		}
+	}
+	if in == nil {
+		s.St.Inc("probe.election_failed_without_captured_input")
+		return nil
+	}
+	e := newC14Elig(in)
+	perEntity := map[staking.Address]int{}
+	var addrs []staking.Address
+	for i, n := range in.Nodes {
+		addr := staking.NewAddress(n.EntityID)
+		if n.HasRoles(commonNode.RoleValidator) && !e.frozen(i) && !e.expired(i) && e.stakeOK(addr) {
+			if perEntity[addr] == 0 {
+				addrs = append(addrs, addr)
+			}
+			perEntity[addr]++
+		}
+	}
+	capacity := 0
+	for _, a := range addrs {
+		capacity += min(perEntity[a], in.Sched.MaxValidatorsPerEntity)
+	}
+	need := max(1, in.Sched.MinValidators)
+	if capacity < need {
+		s.St.Inc("probe.election_failed_precondition_confirmed")
+		return nil
+	}
+	s.Aborted = ""
+	return cViol("C10", "election-failed-with-eligible-validators", "election-failed-with-eligible-validators",
+		fmt.Sprintf("height %d epoch %d: the validator election failed and halted the chain although %d stake-eligible validator nodes of %d entities are registered (within the per-entity limit %d they fill %d seats; MinValidators %d, MaxValidators %d, beacon backend %s, %d nodes submitted a VRF proof): %s",
+			h, in.Epoch, func() int {
+				t := 0
+				for _, c := range perEntity {
+					t += c
+				}
+				return t
+			}(), len(addrs), in.Sched.MaxValidatorsPerEntity, capacity, in.Sched.MinValidators, in.Sched.MaxValidators, in.BeaconBackend, len(in.VRFProvers), lastLogLine(core.Logs.Recent())))
+}
+
+func lastLogLine(l string) string {
+	l = strings.TrimSpace(l)
+	if i := strings.LastIndexByte(l, '\n'); i >= 0 {
+		l = l[i+1:]
+	}
+	if len(l) > 300 {
+		l = l[:300]
+	}
+	return l
+}
+
 func (s *Sim) panicViolation(where string, r *Replica, pv interface{}, stack string) *core.Violation {
 	if electionPrecondition(fmt.Sprint(pv)) {
-		s.St.Inc("probe.precondition_validator_election_failed")
-		s.Aborted = "validator-election-precondition"
-		return nil
+		return s.electionFailure()
 	}
 	if os.Getenv("VERIF_DEBUG") != "" {
 		fmt.Fprintf(os.Stderr, "PANIC in %s replica %d height %d: %v\n%s\n", where, r.Idx, s.Height+1, pv, stack)
@@ -801,9 +872,7 @@ func (s *Sim) produceBlock(opIdx int, b *BlockOp) *core.Violation {
 			return s.panicViolation("PrepareProposal", p, pv, stack)
 		}
 		if err != nil && electionPrecondition(err.Error()+core.Logs.Recent()) {
-			s.St.Inc("probe.precondition_validator_election_failed")
-			s.Aborted = "validator-election-precondition"
-			return nil
+			return s.electionFailure()
 		}
 		if err != nil {
 			if s.Prop == "C10" {
@@ -823,9 +892,7 @@ func (s *Sim) produceBlock(opIdx int, b *BlockOp) *core.Violation {
 				return s.panicViolation("ProcessProposal", r, pv, stack)
 			}
 			if (!ok || err != nil) && electionPrecondition(core.Logs.Recent()) {
-				s.St.Inc("probe.precondition_validator_election_failed")
-				s.Aborted = "validator-election-precondition"
-				return nil
+				return s.electionFailure()
 			}
 			if (!ok || err != nil) && s.Prop == "C10" {
 				return cViol("C10", "honest-proposal-rejected", "honest-proposal-rejected", fmt.Sprintf("replica %d rejected the honest proposal of replica %d for height %d round %d (err=%v)", r.Idx, p.Idx, h, round, err))
@@ -948,9 +1015,7 @@ func (s *Sim) produceBlock(opIdx int, b *BlockOp) *core.Violation {
 				return s.panicViolation("ProcessProposal", r, pv, stack)
 			}
 			if (!ok || perr != nil) && electionPrecondition(core.Logs.Recent()) {
-				s.St.Inc("probe.precondition_validator_election_failed")
-				s.Aborted = "validator-election-precondition"
-				return nil
+				return s.electionFailure()
 			}
 			if !ok || perr != nil {
 				if s.Prop == "C10" || s.Prop == "C01" {
